@@ -164,6 +164,9 @@ func (tc *typechecker) checkArrayType(array *ast.ArrayType, length int) *typeInf
 	if !len.IsConstant() {
 		panic(tc.errorf(array, "non-constant array bound %s", array.Len))
 	}
+	if !len.Untyped() && !len.IsInteger() {
+		panic(tc.errorf(array, "array bound %s must be integer", array.Len))
+	}
 	c, err := len.Constant.representedBy(intType)
 	if err != nil {
 		panic(tc.errorf(array, "%s", err))
